@@ -43,6 +43,26 @@ static void tr(const char* fmt, ...) { if (!trace) return; va_list ap; va_start(
 /* ------------------------------------------------------------ server side */
 static CS104_Slave slave; static int mode_cb = 0;   /* 1: event handler calls back into the API (known finding) */
 static CS101_AppLayerParameters alp;
+/* C07 oracle on the threaded server (public API only): raw-message and event callbacks give the order of things as the
+ * server itself sees it; an I-format APDU written on a connection that is not started (never confirmed STARTDT, has read
+ * STOPDT act, or was deactivated) is a violation */
+static int state_fail = 0; static char state_info[400]; static long n_state_checks = 0;
+/* why a connection is not started: 1 never confirmed STARTDT, 2 it read STOPDT act, 3 deactivated (another connection's STARTDT) */
+static struct { void* key; int why; int after; } cst[256]; static int n_cst = 0;
+static int race_seen = 0; static char race_info[400];
+static int cst_idx(IMasterConnection c) { for (int i = 0; i < n_cst; i++) if (cst[i].key == c->object) return i; if (n_cst < 256) { cst[n_cst].key = c->object; cst[n_cst].why = 1; cst[n_cst].after = 0; return n_cst++; } return 0; }
+static void srv_raw(void* p, IMasterConnection c, uint8_t* msg, int n, bool sent)
+{
+    int k = cst_idx(c);
+    tr("  raw %s con=%p ctl=%02x n=%d why=%d task=%d", sent ? "sent" : "recv", c->object, n > 2 ? msg[2] : 0, n, cst[k].why, sim_last_task);
+    if (!sent && n >= 6 && (msg[2] & 3) == 3) { if ((msg[2] & 0x13) == 0x13) { cst[k].why = 2; cst[k].after = 0; } else if ((msg[2] & 0x07) == 0x07) cst[k].why = 0; }
+    if (sent && n > 6 && (msg[2] & 1) == 0) { n_state_checks++;
+        if (cst[k].why) { cst[k].after++;
+            static const char* W[] = { "", "that never confirmed STARTDT", "after it read STOPDT act", "after it was deactivated by another connection's STARTDT" };
+            if (cst[k].why == 3 && cst[k].after == 1) {     /* the recorded race: at most one frame, only after a deactivation from outside */
+                if (!race_seen++) snprintf(race_info, sizeof race_info, "scenario %ld: one I-format APDU (N(S)=%d) written on a connection right after another connection's STARTDT deactivated it", n_scen, (msg[2] + (msg[3] << 8)) >> 1); }
+            else if (!state_fail++) snprintf(state_info, sizeof state_info, "scenario %ld: I-format APDU number %d (N(S)=%d, %d octets) written on a connection %s", n_scen, cst[k].after, (msg[2] + (msg[3] << 8)) >> 1, n, W[cst[k].why]); } }
+}
 static bool srv_asdu(void* p, IMasterConnection c, CS101_ASDU asdu)
 {
     /* an ASDU handler answers through the connection: this is the documented use */
@@ -60,6 +80,11 @@ static void srv_event(void* p, IMasterConnection c, CS104_PeerConnectionEvent ev
         IMasterConnection_sendASDU(c, a); CS101_ASDU_destroy(a);
     }
     if (mode_cb == 2 && ev == CS104_CON_EVENT_DEACTIVATED) CS104_Slave_getOpenConnections(slave);
+    tr("  event %d con=%p task=%d", (int) ev, c->object, sim_last_task);
+    { int k = cst_idx(c);
+      if (ev == CS104_CON_EVENT_CONNECTION_OPENED || ev == CS104_CON_EVENT_CONNECTION_CLOSED) { cst[k].why = 1; cst[k].after = 0; }
+      else if (ev == CS104_CON_EVENT_DEACTIVATED) { if (cst[k].why != 2) { cst[k].why = 3; cst[k].after = 0; } }
+      else if (ev == CS104_CON_EVENT_ACTIVATED) cst[k].why = 0; }
 }
 static bool srv_request(void* p, const char* ip) { return prng_below(10) != 0; }
 typedef struct { SimSocket* s; int ns; int rx_i; bool started; uint8_t acc[70000]; int acc_len; } Peer;
@@ -97,6 +122,7 @@ static bool server_scenario(bool thorough)
     alp = CS104_Slave_getAppLayerParameters(slave);
     CS104_Slave_setASDUHandler(slave, srv_asdu, NULL); CS104_Slave_setConnectionEventHandler(slave, srv_event, NULL);
     CS104_Slave_setInterrogationHandler(slave, NULL, NULL);
+    if (acct_mode) CS104_Slave_setRawMessageHandler(slave, srv_raw, NULL);
     if (prng_below(2)) CS104_Slave_setConnectionRequestHandler(slave, srv_request, NULL);
     if (mode == 1) { CS104_RedundancyGroup g = CS104_RedundancyGroup_create("a"); CS104_RedundancyGroup_addAllowedClient(g, "10.0.0.1"); CS104_Slave_addRedundancyGroup(slave, g); CS104_Slave_addRedundancyGroup(slave, CS104_RedundancyGroup_create("all")); }
     CS104_Slave_setMaxOpenConnections(slave, prng_range(1, 5));
@@ -195,9 +221,11 @@ int main(int argc, char** argv)
     if (!strncmp(argv[1], "acct", 4)) {
         /* C18: server scenarios only, more restarts, the accounting oracle decides */
         acct_mode = 1; bool th = !strcmp(argv[1], "acct-thorough"); bool ok = true;
-        for (int i = 0; i < (th ? 300 : 60) && ok && !acct_fail; i++) ok = server_scenario(th);
+        for (int i = 0; i < (th ? 300 : 60) && ok && !acct_fail && !state_fail; i++) { n_cst = 0; ok = server_scenario(th); }
         if (acct_fail) printf("ACCT_FAIL (seed %llu) %s\n", (unsigned long long) seed_from_env(), acct_info);
-        printf("ACCT scenarios=%ld accounting_checks=%ld thread_steps=%ld\n", n_scen, n_acct, n_steps);
+        if (state_fail) printf("STATE_FAIL (seed %llu) %s\n", (unsigned long long) seed_from_env(), state_info);
+        if (race_seen) printf("STATE_RACE (seed %llu) %s (%d times in this run)\n", (unsigned long long) seed_from_env(), race_info, race_seen);
+        printf("ACCT scenarios=%ld accounting_checks=%ld iframes_checked=%ld thread_steps=%ld\n", n_scen, n_acct, n_state_checks, n_steps);
         return 0;
     }
     bool thorough = !strcmp(argv[1], "thorough");
